@@ -186,8 +186,7 @@ auto ebpps_sketch<T,A>::get_result() const -> result_type {
 
 template<typename T, typename A>
 void ebpps_sketch<T, A>::merge(ebpps_sketch<T, A>&& sk) {
-  if (sk.get_cumulative_weight() == 0.0) return;
-  else if (sk.get_cumulative_weight() > get_cumulative_weight()) {
+  if (sk.get_cumulative_weight() > get_cumulative_weight()) {
     // need to swap this with sk to merge smaller into larger
     std::swap(*this, sk);
   }
@@ -197,8 +196,7 @@ void ebpps_sketch<T, A>::merge(ebpps_sketch<T, A>&& sk) {
 
 template<typename T, typename A>
 void ebpps_sketch<T, A>::merge(const ebpps_sketch<T, A>& sk) {
-  if (sk.get_cumulative_weight() == 0.0) return;
-  else if (sk.get_cumulative_weight() > get_cumulative_weight()) {
+  if (sk.get_cumulative_weight() > get_cumulative_weight()) {
     // need to swap this with sk to merge, so make a copy, swap,
     // and use that to merge
     ebpps_sketch sk_copy(sk);
@@ -221,6 +219,18 @@ void ebpps_sketch<T, A>::internal_merge(O&& sk) {
   const double new_wt_max = std::max(wt_max_, sk.wt_max_);
   k_ = std::min(k_, sk.k_);
   const uint64_t new_n = n_ + sk.n_;
+
+  // k_ may have become smaller and the maximum weight larger than what the
+  // current sample was built for, so bring the sample in line first
+  if (cumulative_wt_ > 0.0) {
+    const double new_rho = std::min(1.0 / new_wt_max, k_ / cumulative_wt_);
+    sample_.downsample(new_rho / rho_);
+    rho_ = new_rho;
+  }
+  wt_max_ = new_wt_max;
+
+  // nothing to insert from an empty sketch
+  if (sk.cumulative_wt_ == 0.0) return;
 
   // Insert sk's items with the cumulative weight
   // split between the input items. We repeat the same process
